@@ -75,7 +75,7 @@ pub fn drive_hash(t: &mut Tracer, tier: &str, seed: u64, plan: Option<String>) {
     }
     for _ in 0..(if thorough { 3000 } else { 300 }) { from_hash(t, sess(), &rng.bytes(40), "random"); }
     // H1 / H2 wrappers on identities of 0..300 bytes
-    let lens: Vec<usize> = if thorough { (0..=300).collect() } else { vec![0, 1, 5, 31, 32, 49, 50, 55, 56, 64, 100, 300] };      // 49 / 50: the H1 input 01 || ID || hid || ct at SM3's padding boundary
+    let lens: Vec<usize> = if thorough { (0..=300).collect() } else { let mut v: Vec<usize> = vec![0, 1, 5, 31, 32, 49, 50, 55, 56, 64, 100, 300, 511, 512, 513, 1000]; v.extend(118..=136); v.extend(245..=262); v };      // 49 / 50: the H1 input at SM3's padding boundary; ladders around 128 and 256: fixed-size buffers
     for (i, len) in lens.iter().enumerate() {
         let id = rng.bytes(*len);
         let hid = [1u8, 2, 3][i % 3];
@@ -133,10 +133,10 @@ struct SignCtx { ks: Vec<u8>, msk: Sm9SignMasterKey }
 fn sign_ctx(ks: &[u8]) -> SignCtx { let k = u(ks); SignCtx { ks: ks.to_vec(), msk: Sm9SignMasterKey { ks: k, ppubs: TwistPoint::g_mul(&k) } } }
 
 fn sign_event(t: &mut Tracer, sess: &str, c: &SignCtx, id: &[u8], g: Option<&Gen>, msg: &[u8], script: Vec<[u8; 32]>) -> Option<(U256, Point, Vec<u8>)> {
-    let key = match c.msk.extract_key(id) { Some(k) => k, None => return None };
     let fixed = !script.is_empty();
-    let m = msg.to_vec();
-    let (o, rs, _) = hooked(script, move || key.sign(&m).map_err(|e| format!("{:?}", e)));
+    let (m, msk, id2) = (msg.to_vec(), c.msk, id.to_vec());
+    // key extraction happens inside the guarded call: a crash in it is an outcome of this event, not of the driver
+    let (o, rs, _) = hooked(script, move || { let key = msk.extract_key(&id2).ok_or("no signing key for this identity".to_string())?; key.sign(&m).map_err(|e| format!("{:?}", e)) });
     let (h, s) = match o.ok() { Some((h, s)) => (*h, *s), None => ([0u64; 4], Point::zero()) };
     let mut f = json!({"prop": "C09", "ks": bytes(&c.ks), "idb": bytes(id), "mode": if fixed { "fixed" } else { "free" }, "rs": rs.iter().map(|r| bytes(r)).collect::<Vec<_>>(),
         "h": bytes(&ub(&h)), "s": g1_json(&s), "outcome": o.name(), "detail": o.detail()});
@@ -183,6 +183,16 @@ pub fn drive_sign(t: &mut Tracer, tier: &str, seed: u64, plan: Option<String>) {
             if let Some((h, s, r)) = sign_event(t, &sess(), &c, &id, Some(&g), &m, script) {
                 verify_event(t, &sess(), &c, &c.msk.ppubs, false, &id, Some(&g), &m, &ub(&h), &s, Some(&r), "none");
                 if valid.len() < (if thorough { 6 } else { 1 }) { valid.push((sign_ctx(&c.ks), id.clone(), m.clone(), h, s, r)); }
+            }
+        }
+    }
+    // long identities (around 250 bytes: fixed-size scratch buffers for 01 || ID || hid || ct)
+    {
+        let c = sign_ctx(&scalar(&mut rng));
+        for idlen in [250usize, 251, 252, 256, 300] {
+            let idv = rng.bytes(idlen);
+            if let Some((h, s, r)) = sign_event(t, &sess(), &c, &idv, None, b"long identity", vec![]) {
+                verify_event(t, &sess(), &c, &c.msk.ppubs, false, &idv, None, b"long identity", &ub(&h), &s, Some(&r), "none");
             }
         }
     }
@@ -242,10 +252,10 @@ fn encrypt_event(t: &mut Tracer, sess: &str, c: &EncCtx, id: &[u8], g: Option<&G
     if o.ok().is_some() && !rs.is_empty() { Some((ct, rs.last().unwrap().clone())) } else { None }
 }
 fn decrypt_event(t: &mut Tracer, sess: &str, c: &EncCtx, keyid: &[u8], id: &[u8], ct: &[u8], r: Option<&[u8]>, fault: &str) {
-    let (msk, kid, id2, c2) = (c.msk, keyid.to_vec(), id.to_vec(), ct.to_vec());
+    let (msk, kid, id2, c2) = (c.msk, keyid.to_vec(), crate::gen::realign(id), crate::gen::realign(ct));
     let o: Outcome<Vec<u8>> = guard_timed(60, move || -> Result<Vec<u8>, String> {
         let key: Sm9EncKey = msk.extract_key(&kid).ok_or("no key".to_string())?;
-        key.decrypt(&id2, &c2).map_err(|e| format!("{:?}", e))
+        key.decrypt(id2.get(), c2.get()).map_err(|e| format!("{:?}", e))
     });
     let out = o.ok().cloned().unwrap_or_default();
     t.emit(sess, "sm9.decrypt", json!({"prop": "C10", "ke": bytes(&c.ke), "keyid": bytes(keyid), "idb": bytes(id), "ct": bytes(ct), "honest": if r.is_some() { 1 } else { 0 },
@@ -275,6 +285,18 @@ pub fn drive_encrypt(t: &mut Tracer, tier: &str, seed: u64, plan: Option<String>
         let rs = b32(&sparse_scalar(&mut rng, w % 2));
         if let Some((ct, r)) = encrypt_event(t, &sess(), &annex, b"Bob", None, b"sparse nonce", vec![rs]) {
             decrypt_event(t, &sess(), &annex, b"Bob", b"Bob", &ct, Some(&r), "none");
+        }
+    }
+    // long identities (around 250 bytes), incl. two that share their first 250 bytes (a truncating H1 would give them the same key)
+    {
+        let c = enc_ctx(&scalar(&mut rng));
+        let base = rng.bytes(300);
+        for idlen in [250usize, 251, 252, 256, 300] {
+            let idv = base[..idlen].to_vec();
+            if let Some((ct, r)) = encrypt_event(t, &sess(), &c, &idv, None, b"long identity", vec![]) {
+                decrypt_event(t, &sess(), &c, &idv, &idv, &ct, Some(&r), "none");
+                if idlen == 300 { let other = base[..256].to_vec(); decrypt_event(t, &sess(), &c, &other, &other, &ct, None, "other-key"); }
+            }
         }
     }
     // ke = H1(ID || 03): Q = [h1]P1 + Ppub-e is a doubling in G1
@@ -414,6 +436,12 @@ pub fn drive_kex(t: &mut Tracer, tier: &str, seed: u64) {
         let (ida, idb) = (b"Alice".to_vec(), b"Bob".to_vec());
         let ke = ub(&gm_sm9::key::verif_hash1(if which == 0 { &idb } else { &ida }, 2));
         run(t, sess(), &ke, &ida, &idb, 32, vec![], vec![], "none", "none", &mut rng);
+    }
+    // long identities (251 / 256 bytes)
+    for (la, lb) in [(251usize, 5usize), (6, 256)] {
+        let ke = scalar(&mut rng);
+        let (ida, idb) = (rng.bytes(la), rng.bytes(lb));
+        run(t, sess(), &ke, &ida, &idb, 16, vec![], vec![], "none", "none", &mut rng);
     }
     // identities whose total length puts the KDF input IDA || IDB || RA || RB || g1 || g2 || g3 || ct at SM3's padding boundary (55 / 56 mod 64)
     for (la, lb) in [(25usize, 26usize), (26, 26)] {
